@@ -99,7 +99,7 @@ func CheckC03(p *Pkg, e *Env, r *res.Result) {
 	} else {
 		prefixes = append(prefixes, struct{ name, v string }{"foreign-prefix", "/v1"})
 	}
-	methods := []string{"GET", "POST", "DELETE", "PATCH"}
+	methods := []string{"GET", "POST", "DELETE", "PATCH", "PUT", "HEAD", "OPTIONS", "TRACE"}
 	paths := enumPaths([]string{"a", "b", "x", ""}, 5)
 	// the base path itself, without any segment after it, is not under the base path
 	if base != "" {
